@@ -160,7 +160,7 @@ func modelCheck(id string) checkFn {
 	return func(c *Ctx) {
 		c.rule = "generated block histories (all native transaction types, valid and single-defect invalid variants, signer/absentee/evidence patterns) executed on the real application; after every commit the full state dump is compared with a one-step reference model; one evaluation = one executed block whose complete committed state was compared with the model; a block is non-trivial when at least one of its transactions was accepted, distinct by (history, height, app hash)"
 		c.assumptions = []string{"genesis validators satisfy the validator limits", "min validator stake >= 1 unit", "the anchor validator never leaves (Tendermint cannot run with an empty validator set)"}
-		n := c.N(48, 2000)
+		n := c.N(96, 2000)
 		c.Parallel(n, 0, func(i int) {
 			o := presetFor(c, id, i)
 			if !c.Quick() {
